@@ -605,6 +605,12 @@ pub fn create_logical_ext(l: &Logical, comp: Comp, packaging: Packaging, dir: &P
     create_logical_named(l, comp, packaging, dir, &format!("{stem}.jbk"), stem, extra_dir)
 }
 
+thread_local! {
+    /// hand the extra content packs to `BasicCreator::finalize` in reverse order (ids 3, 2 instead
+    /// of 2, 3): the manifest then lists its packs in an order that is not the order of their ids
+    pub static REVERSE_EXTRAS: std::cell::Cell<bool> = const { std::cell::Cell::new(false) };
+}
+
 /// Same, with the file name of the entry point given in full (any extension, or none).
 pub fn create_logical_named(l: &Logical, comp: Comp, packaging: Packaging, dir: &Path, file_name: &str, stem: &str, extra_dir: &Path) -> Result<CreatedLogical, String> {
     let r = crate::catch(|| -> Result<CreatedLogical, String> {
@@ -639,6 +645,9 @@ pub fn create_logical_named(l: &Logical, comp: Comp, packaging: Packaging, dir: 
             add_items(&mut c, items)?;
             files.push(ep);
             extras.push(c);
+        }
+        if REVERSE_EXTRAS.with(|r| r.get()) {
+            extras.reverse();
         }
         creator
             .finalize(Box::new(SpecEntries(l.dir.clone())), extras)
